@@ -17,7 +17,7 @@ LEVEL = "exploration"
 CASE_TIMEOUT = 600
 CPU_BUDGET = 400
 REQUIRED_OBS = ["cli_invocations", "trees_round_tripped", "damaged_archives_judged", "volume_sizes_tried"]
-RULE = ("real subprocesses 'python -m py7zr <cmd>': (tree) c then l / t / x (+-output dir, +-verbose, archive name with/without .7z) then a: x reproduces the tree "
+RULE = ("real subprocesses 'python -m py7zr <cmd>': (tree) c then l / t / x (+-output dir, +-verbose, archive name with .7z / without / without but with other dots in the base name) then a: x reproduces the tree "
         "(C02 walker), l prints exactly the library's member names, a keeps earlier members; (volume) c -v SIZE for every suffix b,k,m,g,B,K,M,G and none: exit 0, "
         "volumes exist, their concatenation reads back; (damage) corpus archives damaged (bit flips, truncation, overwrites), first classified by the library oracle into "
         "content-intact / not-intact: t and x must exit 0 iff intact; (fixtures) encrypted archives without -P, LZ4 and BCJ2 archives: t and x must exit non-zero; i exits 0. "
@@ -25,14 +25,23 @@ RULE = ("real subprocesses 'python -m py7zr <cmd>': (tree) c then l / t / x (+-o
 ASSUMPTIONS = ["passwords cannot be fed to getpass() without a tty: the -P paths are not driven", "symlink-free trees for the CLI round trip are compared like C02 (modes, mtimes, bytes)"]
 
 
+# archive names as typed: with the extension, without, and without but with other dots in the base name
+ARCNAMES = ["out.7z", "out", "backup.2024", "out.7z", "site.tar", "release-1.2", "a.b.7z", "x.y.z"]
+
+
+def _name_class(n):
+    return "with-ext" if n.endswith(".7z") else ("no-ext-dotted" if "." in n else "no-ext")
+
+
 def cases(rng, tier):
     seed = int(os.environ.get("VERIF_SEED", "0") or 0)
     corp = corpus.get(tier, seed)
     out = []
     for i in range(16 if tier == "quick" else 250):
-        out.append({"kind": "tree", "tree": T.tree(rng, max_entries=8, max_len=5000, links=(i % 3 == 0)), "ext": i % 2 == 0, "odir": i % 3 != 1, "verbose": i % 4 == 0, "seed": rng.getrandbits(30)})
+        out.append({"kind": "tree", "tree": T.tree(rng, max_entries=8, max_len=5000, links=(i % 3 == 0)), "arcarg": ARCNAMES[i % len(ARCNAMES)], "odir": i % 3 != 1, "verbose": i % 4 == 0, "seed": rng.getrandbits(30)})
     for suf in ["", "b", "k", "m", "g", "B", "K", "M", "G"]:
-        out.append({"kind": "volume", "size": {"": "10000", "b": "5000b", "k": "3k", "m": "1m", "g": "1g", "B": "7000B", "K": "2K", "M": "2M", "G": "1G"}[suf], "suffix": suf})
+        out.append({"kind": "volume", "size": {"": "10000", "b": "5000b", "k": "3k", "m": "1m", "g": "1g", "B": "7000B", "K": "2K", "M": "2M", "G": "1G"}[suf], "suffix": suf,
+                    "arcarg": ["vol.7z", "vol", "vol-1.2"][len(out) % 3]})
     for a in corp[:: (3 if tier == "quick" else 1)]:
         if a["password"] is not None:
             continue
@@ -85,17 +94,18 @@ def run_case(case):
             src = os.path.join(work, "src")
             T.make(src, case["tree"])
             os.utime(src, ns=(1_600_000_000_000_000_000, 1_600_000_000_000_000_000))
-            arcarg = "out.7z" if case["ext"] else "out"
+            arcarg = case["arcarg"]
+            A = arcarg if arcarg.endswith(".7z") else arcarg + ".7z"  # where the archive has to be: the name as typed, completed by the extension
             rc, so, se = _cli(["c", arcarg, "src"], work, obs)
             if rc != 0:
                 viol.append({"key": "c-fails/rc=%s" % rc, "what": "py7zr c %s src -> exit %s: %s" % (arcarg, rc, (se or so)[-200:])})
-            arc = os.path.join(work, "out.7z")
+            arc = os.path.join(work, A)
             if not os.path.exists(arc):
-                viol.append({"key": "c-no-archive", "what": "py7zr c %s: no out.7z created" % arcarg})
+                viol.append({"key": "c-no-archive", "what": "py7zr c %s exits %s but there is no %s (directory now holds %r)" % (arcarg, rc, A, sorted(os.listdir(work))[:6])})
             else:
                 with py7zr.SevenZipFile(arc) as z:
                     libnames = z.getnames()
-                rc, so, se = _cli(["l", "out.7z"] + (["--verbose"] if case["verbose"] else []), work, obs)
+                rc, so, se = _cli(["l", A] + (["--verbose"] if case["verbose"] else []), work, obs)
                 if rc != 0:
                     viol.append({"key": "l-fails/rc=%s" % rc, "what": "py7zr l -> exit %s: %s" % (rc, se[-200:])})
                 else:
@@ -107,18 +117,18 @@ def run_case(case):
                     if missing:
                         viol.append({"key": "l-misses-member", "what": "py7zr l does not show %r (library lists %d members)" % (missing[:3], len(libnames))})
                 cells.add("tree|l|%s|rc%s" % ("verbose" if case["verbose"] else "-", rc))
-                rc, so, se = _cli(["t", "out.7z"], work, obs)
+                rc, so, se = _cli(["t", A], work, obs)
                 if rc != 0:
                     viol.append({"key": "t-fails-on-intact/rc=%s" % rc, "what": "py7zr t on a fresh archive -> exit %s: %s" % (rc, (so + se)[-200:])})
                 cells.add("tree|t|rc%s" % rc)
                 if case["odir"]:
-                    rc, so, se = _cli(["x", "out.7z", "xdir"] + (["--verbose"] if case["verbose"] else []), work, obs)
+                    rc, so, se = _cli(["x", A, "xdir"] + (["--verbose"] if case["verbose"] else []), work, obs)
                     top = os.path.join(work, "xdir", "src")
                 else:
                     os.mkdir(os.path.join(work, "cwdx"))
-                    rc, so, se = _cli(["x", "../out.7z"] + (["--verbose"] if case["verbose"] else []), os.path.join(work, "cwdx"), obs)
+                    rc, so, se = _cli(["x", "../" + A] + (["--verbose"] if case["verbose"] else []), os.path.join(work, "cwdx"), obs)
                     top = os.path.join(work, "cwdx", "src")
-                cells.add("tree|x|%s|%s|rc%s" % ("odir" if case["odir"] else "cwd", "verbose" if case["verbose"] else "-", rc))
+                cells.add("tree|x|%s|%s|%s|rc%s" % ("odir" if case["odir"] else "cwd", "verbose" if case["verbose"] else "-", _name_class(case["arcarg"]), rc))
                 if rc != 0:
                     viol.append({"key": "x-fails-on-intact/rc=%s/%s" % (rc, "odir" if case["odir"] else "cwd"), "what": "py7zr x -> exit %s: %s" % (rc, (so + se)[-300:])})
                 else:
@@ -142,7 +152,7 @@ def run_case(case):
                 # append
                 with open(os.path.join(work, "added.txt"), "wb") as f:
                     f.write(b"appended by the command line\n")
-                rc, so, se = _cli(["a", "out.7z", "added.txt"], work, obs)
+                rc, so, se = _cli(["a", A, "added.txt"], work, obs)
                 cells.add("tree|a|rc%s" % rc)
                 if rc != 0:
                     viol.append({"key": "a-fails/rc=%s" % rc, "what": "py7zr a -> exit %s: %s" % (rc, (so + se)[-200:])})
@@ -152,22 +162,23 @@ def run_case(case):
                     if after != libnames + ["added.txt"]:
                         viol.append({"key": "a-disturbs-members", "what": "after 'a': %r, before: %r" % (after[-4:], libnames[-3:])})
             T.unlock(work)
-            sample = {"kind": "tree", "entries": len(case["tree"]), "ext": case["ext"], "odir": case["odir"], "verbose": case["verbose"]}
+            sample = {"kind": "tree", "entries": len(case["tree"]), "archive_name": case["arcarg"], "odir": case["odir"], "verbose": case["verbose"]}
         elif case["kind"] == "volume":
             work = os.path.join(d, "w")
             os.mkdir(work)
             blob = os.urandom(30000)
             with open(os.path.join(work, "payload.bin"), "wb") as f:
                 f.write(blob)
-            rc, so, se = _cli(["c", "-v", case["size"], "vol.7z", "payload.bin"], work, obs)
+            rc, so, se = _cli(["c", "-v", case["size"], case["arcarg"], "payload.bin"], work, obs)
             obs["volume_sizes_tried"] += 1
-            cells.add("volume|%s|rc%s" % (case["suffix"] or "none", rc))
+            cells.add("volume|%s|%s|rc%s" % (case["suffix"] or "none", _name_class(case["arcarg"]), rc))
             if rc != 0:
                 viol.append({"key": "volume-size-rejected/%s" % (case["suffix"] or "no-suffix"), "what": "py7zr c -v %s -> exit %s: %s" % (case["size"], rc, (so + se)[-300:])})
             else:
-                parts = sorted(glob.glob(os.path.join(work, "vol.7z.[0-9]*")))
+                V = case["arcarg"] if case["arcarg"].endswith(".7z") else case["arcarg"] + ".7z"
+                parts = sorted(glob.glob(os.path.join(work, glob.escape(V) + ".[0-9]*")))
                 if not parts:
-                    viol.append({"key": "volume-no-files", "what": "py7zr c -v %s: no volume files" % case["size"]})
+                    viol.append({"key": "volume-no-files", "what": "py7zr c -v %s %s: no volume files %s.NNNN (directory now holds %r)" % (case["size"], case["arcarg"], V, sorted(os.listdir(work))[:6])})
                 else:
                     cat = b"".join(open(p_, "rb").read() for p_ in parts)
                     try:
